@@ -379,6 +379,28 @@ def run_store_case(ctx, case, env, replies):
                 return (f'two parts of one array written at offsets 0 and {h} in one dask computation do not read back '
                         f'as the array (both puts reported success)')
             ctx.tag('joint-put-two-offsets')
+            # the SAME dask array written at two offsets of one array name in one dask computation
+            name5 = f'{name}_tile'
+            tile = da.from_array(x[:h], chunks=((h,),) + rest)
+            twice = np.empty((2 * h,) + x.shape[1:], dtype=x.dtype)
+            twice[:h] = x[:h]
+            twice[h:] = x[:h]
+            other5 = make_store(dict(case, _name=name5, shape=list(twice.shape)), env, twice) if case['backend'] == 'dict' \
+                else store
+            try:
+                if case['backend'] != 'dict':
+                    other5.create_array(name5)
+                q1 = other5.put_dask_array(name5, tile, (0,) * x.ndim)
+                q2 = other5.put_dask_array(name5, tile, (h,) + (0,) * (x.ndim - 1))
+                dask.compute(q1, q2)
+                back5 = other5.get_dask_array(name5, ((h, h),) + rest, dtype, errors='raise').compute()
+            except Exception as e:   # noqa: BLE001
+                return (f'one dask array written at offsets 0 and {h} of one array name in one dask computation: reading '
+                        f'both regions back raised {type(e).__name__}: {str(e)[:120]}')
+            if not zoo.same_array(back5, twice):
+                return (f'one dask array written at offsets 0 and {h} of one array name in one dask computation: only one '
+                        f'of the two regions holds it afterwards (both puts reported success)')
+            ctx.tag('joint-put-same-array-two-offsets')
             # the same array name written to TWO stores in one dask computation: both stores receive their chunks
             if case['backend'] == 'npy':
                 d2 = tempfile.mkdtemp(prefix='c07_second_')
@@ -398,6 +420,20 @@ def run_store_case(ctx, case, env, replies):
                         if not zoo.same_array(got, x):
                             return f'one array put to two stores in one dask computation: the {label} store differs'
                     ctx.tag('joint-put-two-stores')
+                    # ... and two stores holding DIFFERENT arrays under one name, read lazily in one dask computation
+                    if x.dtype.kind in 'iufc' and x.size:
+                        name6 = f'{name}_twoget'
+                        x2 = (x[::-1].copy() if x.shape[0] > 1 and not zoo.same_array(x[::-1], x) else x + x.dtype.type(1))
+                        store.create_array(name6)
+                        second.create_array(name6)
+                        store.put_dask_array(name6, da.from_array(x, chunks=chunks)).compute()
+                        second.put_dask_array(name6, da.from_array(x2, chunks=chunks)).compute()
+                        g1, g2 = dask.compute(store.get_dask_array(name6, chunks, dtype, errors='raise'),
+                                              second.get_dask_array(name6, chunks, dtype, errors='raise'))
+                        if not zoo.same_array(g1, x) or not zoo.same_array(g2, x2):
+                            return ('two stores hold different arrays under one name; read lazily in one dask computation '
+                                    'one of them returns the data of the other')
+                        ctx.tag('joint-get-two-stores')
                 finally:
                     shutil.rmtree(d2, ignore_errors=True)
         # ---- two lazy arrays of the same stored array restricted to different windows, computed in ONE graph
